@@ -4,7 +4,7 @@
 Require Extraction.
 Require Import ExtrOcamlBasic.
 From PngV Require Import Base.Bytes Spec.FilterSpec Gen.GenPaeth Gen.GenAdam7 Model.Filter Spec.Adam7Spec Model.Adam7
-  Base.Crc Base.Inflate Base.Utf8 Gen.GenStream Model.Stream Model.StreamRun Model.StreamExec Model.Pipeline Model.Transform Spec.TransformSpec Model.Reader Spec.Validator Model.Encoder Model.EncodePipeline Model.Text Model.MetaEnc Model.ZlibBuf Model.UnfiltBuf Model.StreamWriterBuf Model.WriterFail Model.FrameRect.
+  Base.Crc Base.Inflate Base.Utf8 Gen.GenStream Model.Stream Model.StreamRun Model.StreamExec Model.Pipeline Model.Transform Spec.TransformSpec Model.Reader Spec.Validator Model.Encoder Model.EncodePipeline Model.Text Model.MetaEnc Model.ZlibBuf Model.UnfiltBuf Model.StreamWriterBuf Model.WriterFail Model.FrameRect Model.RowCharge.
 Extraction Language OCaml.
 Extraction "model.ml"
   unfilter_model filter_model recon_spec filt_spec
@@ -13,4 +13,4 @@ Extraction "model.ml"
   ftype_to_Z ftype_of_Z row_filter_from_u8
   rows_model pass_dims expand_pass_exec pass_of
   encode_image emitted conformant Reader.run Reader.reader_init Reader.total transform_row output_line_size output_color_type spec_convert spec_output_type decode_frame l0_run l0_budget l0_run_after_reset anc_get inflate_checked inflate_all utf8_valid crc32 adler32 zlib_inflate decode_latin1 encode_latin1 text_decompress_run
-  enc_text enc_ztxt enc_itxt enc_fctl header_chunks K_mark zb_cursor_run zb_new cur_run sw_trace sw_init cw_trace f_history frun_codes.
+  enc_text enc_ztxt enc_itxt enc_fctl header_chunks K_mark zb_cursor_run zb_new cur_run sw_trace sw_init cw_trace f_history frun_codes rc_charged.
